@@ -371,6 +371,26 @@ fn case_flip(d: &mut crate::driver::Driver, r: &mut Report, seed: u64, i: u64, m
     let codes: Vec<u64> = match fl { Flavour::VecBool | Flavour::Bits => (0..n).map(|_| g.below(2)).collect(), _ => (0..n).map(|j| 2 * j as u64).collect() };
     let eff_rate = if ool { 1.0 / n as f32 } else { f32::from_bits(rate_bits) };
     let script = boundary_script(&mut g, eff_rate, n);
+    exec_flip(d, r, seed, i, mutant, fl, ool, rate_bits, codes, script);
+}
+
+/// exhaustive decision-boundary scope: every pool rate x every boundary word x every flavour, one gene
+fn case_flip_boundary(d: &mut crate::driver::Driver, r: &mut Report, seed: u64, i: u64, j: u64, mutant: Mutant) {
+    let fl = [Flavour::VecBool, Flavour::VecI32, Flavour::Bits, Flavour::VectorI32][(j % 4) as usize];
+    let w = (j / 4) % 7;
+    let rate_bits = F32_POOL[((j / 28) as usize) % F32_POOL.len()];
+    let rate = f32::from_bits(rate_bits);
+    let k = if rate.is_finite() { (rate as f64 * (1u64 << 24) as f64).floor().clamp(0.0, ((1u64 << 24) - 1) as f64) as u64 } else { 0 };
+    let low = (1u64 << 40) - 1;
+    let word = [k << 40, (k << 40) | low, (k.saturating_sub(1)) << 40 | low, ((k + 1).min((1 << 24) - 1)) << 40, 0, u64::MAX, low][w as usize];
+    let codes = vec![if matches!(fl, Flavour::VecBool | Flavour::Bits) { 1 } else { 0 }];
+    r.hit("WithRate decision-boundary scope (rate pool x boundary word x flavour)");
+    exec_flip(d, r, seed, i, mutant, fl, false, rate_bits, codes, vec![word]);
+}
+
+#[allow(clippy::too_many_arguments)]
+fn exec_flip(d: &mut crate::driver::Driver, r: &mut Report, seed: u64, i: u64, mutant: Mutant, fl: Flavour, ool: bool, rate_bits: u32, codes: Vec<u64>, script: Vec<u64>) {
+    let n = codes.len();
     let mut real_rng = LinRng::new(script, SplitMix::derive(seed ^ 0xC11, i));
     let (mut shadow, mut second) = (real_rng.clone(), real_rng.clone());
     let mut real = run_flip(fl, ool, rate_bits, &codes, &mut real_rng, mutant);
@@ -616,11 +636,14 @@ pub fn run_rates_with(cfg: &Cfg, mutant: Mutant) -> Report {
     let seed = cfg.seed ^ 0x12;
     let n: u64 = if cfg.thorough { 1_000_000 } else { 30_000 };
     let n_close: u64 = if cfg.thorough { 400_000 } else { 10_000 };
-    let mut rep = run_sharded(&cfg.driver, cfg.threads, n + n_close + 64, || Report::new("rates", RULE_RATES), |d, r, i| {
+    let n_bound: u64 = 4 * 7 * F32_POOL.len() as u64;
+    let mut rep = run_sharded(&cfg.driver, cfg.threads, n + n_close + 64 + n_bound, || Report::new("rates", RULE_RATES), |d, r, i| {
         if i < n {
             match i % 5 { 0 => case_flip(d, r, seed, i, mutant), 1 | 2 => case_umad(d, r, seed, i, mutant, true), 3 => case_gene(d, r, seed, i, mutant), _ => case_bits(d, r, seed, i) }
         } else if i < n + n_close {
             case_closep(d, r, (i - n + 1) as usize, mutant)
+        } else if i >= n + n_close + 64 {
+            case_flip_boundary(d, r, seed, i, i - n - n_close - 64, mutant)
         } else {
             // large instruction counts: around 2^24 (where `as f32` starts rounding) and beyond
             let j = i - n - n_close;
@@ -631,7 +654,7 @@ pub fn run_rates_with(cfg: &Cfg, mutant: Mutant) -> Report {
         }
     });
     frequency_oracles(&mut rep, seed, cfg.thorough, mutant);
-    rep.notes.push(format!("{n} seeded tape-level cases; with_uniform_close_probability for n = 1..={n_close} and 64 large n bit for bit; frequency oracles on {} samples each", if cfg.thorough { 4_000_000 } else { 200_000 }));
+    rep.notes.push(format!("{n} seeded tape-level cases; with_uniform_close_probability for n = 1..={n_close} and 64 large n bit for bit; exhaustive WithRate decision-boundary scope ({n_bound} cases: rate pool x boundary word x flavour); frequency oracles on {} samples each", if cfg.thorough { 4_000_000 } else { 200_000 }));
     if mutant != Mutant::None { rep.notes.push(format!("SELFTEST: mutant {mutant:?}")); }
     rep
 }
